@@ -206,7 +206,9 @@ class Runner:
         h = hashlib.sha1(data).hexdigest()[:12]
         d = os.path.join(EVID, "replays"); os.makedirs(d, exist_ok=True)
         path = os.path.join(d, f"{self.pid}-{h}.case"); open(path, "wb").write(data)
-        res = [self.replay(path, budget=30) for _ in range(3)]   # hangs: 30 s each, normal cases cost milliseconds
+        cb = self.cfg[self.tier].get("case_budget", 10)
+        hb = 30 if kind != "hang" else min(600, max(30, 3 * cb))   # a hang is confirmed with three times the per-case budget (a loaded machine must not turn a slow case into a hang)
+        res = [self.replay(path, budget=hb) for _ in range(3)]
         if self.cfg.get("schedule_dependent") and not all(r[0] == kind for r in res):
             # properties about schedules: an outcome that differs between runs of the same input IS the violation; replay up to 12 more times and
             # report if the failure shows again at least once (the first observation alone could be a disturbed run)
